@@ -24,6 +24,35 @@ def TIGHT():
     ]
 
 
+def SHARED():
+    """two plates and two troughs constructed from the same float64 array objects (replicates from a template)"""
+    a = [[1000, 1001, 1002], [1003, 1004, 1005]]
+    t = [4000.0, 5000.0]
+    return [
+        dict(plate("P", 2, 3, 0, 1e6, a), share="plate"),
+        dict(plate("Q", 2, 3, 0, 1e6, a), share="plate"),
+        dict(trough("T", 3, 2, 0, 1e6, t), share="trough"),
+        dict(trough("U", 2, 2, 0, 1e6, t), share="trough"),
+    ]
+
+
+def transfers(config):
+    """transfers via both worklists with 2-D / broadcast arguments (column-major pairing)"""
+    if config["set"] == "SHARED":
+        return []
+    v = 7.5 if config["set"] == "TIGHT" else 1.5
+    ev = []
+    for wl in ("e", "f"):
+        ev += [
+            ["transfer", wl, "P", {"$w2d": ["P", 0, 2, 0, 2]}, "Q", {"$w2d": ["Q", 0, 2, 0, 2]}, {"$a": [[v, v + 1], [v + 2, v + 3]]}, {}],
+            ["transfer", wl, "P", {"$w2d": ["P", 0, 2, 0, 3]}, "Q", {"$w2d": ["Q", 0, 3, 0, 2]}, {"$a": [[v, v + 1, v + 2], [v + 3, v + 4, v + 5]]}, {}],
+            ["transfer", wl, "T", {"$w2d": ["T", 0, 3, 0, 2]}, "P", {"$w2d": ["P", 0, 2, 0, 3]}, {"$a": [[v, v + 1], [v + 2, v + 3], [v + 4, v + 5]]}, {}],
+            ["transfer", wl, "Q", ["C02", "A01", "C02"], "U", ["A01", "A03", "A01"], [v, v + 1, v + 2], {}],
+            ["transfer", wl, "T", "A01", "Q", {"$w2d": ["Q", 0, 3, 0, 2]}, {"$a": [[v, v + 1], [v + 2, v + 3], [v + 4, v + 5]]}, {}],
+        ]
+    return ev
+
+
 def shapes(spec):
     """(label, wells argument, number of addressed elements, 2-D shape or None)"""
     g = geo_of(spec)
@@ -102,26 +131,44 @@ class Harness(cm.BaseA):
 
     def configs(self, tier):
         wls = {"e": {"cls": "EvoWorklist", "max_volume": 950}, "f": {"cls": "FluentWorklist", "max_volume": 950}}
-        return [{"set": "WIDE", "labware": WIDE(), "worklists": wls}, {"set": "TIGHT", "labware": TIGHT(), "worklists": wls}]
+        return [
+            {"set": "WIDE", "labware": WIDE(), "worklists": wls},
+            {"set": "TIGHT", "labware": TIGHT(), "worklists": wls},
+            {"set": "SHARED", "labware": SHARED(), "worklists": wls},
+        ]
 
     def init(self, config):
         W = make_world(config)
         W["ledger"] = {s["name"]: {c: Fraction(v) for c, v in init_matrix(s).items()} for s in config["labware"]}
+        W["path"] = []
         return W
 
     def core_events(self, W, config):
         return all_events(config, False)
 
     def full_events(self, W, config):
-        return all_events(config, True)
+        return all_events(config, True) + transfers(config)
 
     def canon(self, W, config):
         return b"|".join(lw._volumes.tobytes() for _, lw in sorted(W["lw"].items()))
 
     def step(self, W, ev, config):
         op = ev[0]
+        if config["set"] == "SHARED":
+            # memory shared between live arrays does not survive pickling: rebuild fresh objects and
+            # replay the history so that aliasing between labware (or with the caller's array) stays visible
+            Wf = make_world(config)
+            for e in W["path"]:
+                exec_event(Wf, e)
+                for w in Wf["wl"].values():
+                    del w[:]
+            W["lw"], W["wl"], W["shared"] = Wf["lw"], Wf["wl"], Wf["shared"]
+            W["path"] = W["path"] + [ev]
+        if op == "transfer":
+            return self.step_transfer(W, ev, config)
         lw, wells, vols = (ev[1], ev[2], ev[3]) if op in ("add", "remove") else (ev[2], ev[3], ev[4])
         pre = {n: L.volumes for n, L in W["lw"].items()}
+        shared0 = {k: a.copy() for k, a in W.get("shared", {}).items()}
         out, exc = exec_event(W, ev)
         for wl in W["wl"].values():
             del wl[:]
@@ -135,6 +182,9 @@ class Harness(cm.BaseA):
         for n in post:
             if n != lw and post[n].tobytes() != pre[n].tobytes():
                 V.append(("C04/frame", f"{op} on {lw} changed {n}"))
+        for k, a in W.get("shared", {}).items():
+            if a.tobytes() != shared0[k].tobytes():
+                V.append(("C04/frame", f"{op} on {lw} changed the caller's initial_volumes array '{k}'"))
         addressed = {c for c, _ in pairs}
         for c in led[lw]:
             if c not in addressed and post[lw][c].hex() != pre[lw][c].hex():
@@ -165,4 +215,25 @@ class Harness(cm.BaseA):
                 V.append(("C04/rejected-call-state", f"{op} {lw} raised {type(exc).__name__}; volumes {post[lw].tolist()} are neither the previous state nor the state after the accepted pairs"))
             led[lw] = obs
             res["expand"] = config["set"] == "TIGHT"
+        return res
+
+    def step_transfer(self, W, ev, config):
+        _, wl, src, sw, dst, dw, vols, kw = ev
+        pre = {n: L.volumes for n, L in W["lw"].items()}
+        out, exc = exec_event(W, ev)
+        for w in W["wl"].values():
+            del w[:]
+        post = {n: L.volumes for n, L in W["lw"].items()}
+        res = {"outcome": f"transfer:{out}", "violations": [], "expand": False}
+        V = res["violations"]
+        led = W["ledger"]
+        if out == "ok":
+            for s_, d_, v in cm.triples(config, src, sw, dst, dw, vols):
+                led[src][s_] -= v
+                led[dst][d_] += v
+            for n in post:
+                bad = [(well_id(*c), float(x), float(post[n][c])) for c, x in led[n].items() if Fraction(float(post[n][c])) != x]
+                if bad:
+                    V.append(("C04/ledger", f"transfer {src}->{dst} via {wl}: {n} (well, exact, reported) {bad[:4]}"))
+            res["nontrivial"] = self.canon(W, config) + b"t"
         return res
